@@ -741,6 +741,162 @@ theorem h2_to_h2 (authOk : Bool) (b : Block) (r : Req)
 
 /-! ### non-interference: sending does not change the recorded message -/
 
+/-! ### the content-length law, derived from what hyper-h2 checks -/
+
+private theorem splitPseudo_shape (b : Block) (acc ps fs : List Field) (h : splitPseudo b acc = some (ps, fs)) :
+    ∃ pre, b = pre ++ fs ∧ ∀ f ∈ pre, isPseudo f = true := by
+  induction b generalizing acc with
+  | nil =>
+    simp [splitPseudo] at h
+    exact ⟨[], by simp [h.2], by intro f hf; simp at hf⟩
+  | cons g rest ih =>
+    unfold splitPseudo at h
+    cases hg : isPseudo g with
+    | true =>
+      simp only [hg, if_true] at h
+      split at h
+      · simp at h
+      · obtain ⟨pre, e, hp⟩ := ih _ h
+        refine ⟨g :: pre, by rw [e]; rfl, ?_⟩
+        intro f hf
+        rcases List.mem_cons.mp hf with h1 | h1
+        · rw [h1]; exact hg
+        · exact hp f h1
+    | false =>
+      simp only [hg] at h
+      simp at h
+      exact ⟨[], by rw [← h.2]; rfl, by intro f hf; simp at hf⟩
+
+private theorem pseudo_not_cl (f : Field) (h : isPseudo f = true) : (f.1 == sCL) = false := by
+  cases hq : f.1 == sCL with
+  | false => rfl
+  | true =>
+    have e : f.1 = sCL := by simpa using hq
+    unfold isPseudo at h
+    rw [e] at h
+    revert h; decide
+
+private theorem parse_fields (authOk : Bool) (b : Block) (r : Req) (hp : parseH2Request authOk b = some r) :
+    ∃ ps, splitPseudo b [] = some (ps, r.fields) := by
+  unfold parseH2Request at hp
+  cases hs : splitPseudo b [] with
+  | none => simp [hs] at hp
+  | some pf =>
+    obtain ⟨ps, fs⟩ := pf
+    simp only [hs] at hp
+    cases hm : lookup pMethod ps with
+    | none => simp [hm] at hp
+    | some m =>
+      cases hsc : lookup pScheme ps with
+      | none => simp [hm, hsc] at hp
+      | some sc =>
+        cases hpa : lookup pPath ps with
+        | none => simp [hm, hsc, hpa] at hp
+        | some pa =>
+          simp only [hm, hsc, hpa] at hp
+          split at hp
+          · simp at hp
+          · split at hp
+            · simp at hp
+            · simp at hp; subst hp
+              exact ⟨ps, rfl⟩
+
+private theorem cl_law_core (b : Block) (ps fs : List Field) (body : Bytes)
+    (hall : b.all fieldOk = true) (hs : splitPseudo b [] = some (ps, fs))
+    (hck : h2ClOk false b body.length = true)
+    (hguard : body = [] → ∀ v ∈ valuesOf sCL b, Ref.parseDec v = some 0) :
+    ∀ g, fs.filter (nameIs sCL) = [g] → Ref.parseDec g.2 = some body.length := by
+  obtain ⟨pre, hb, hpre⟩ := splitPseudo_shape b [] ps fs hs
+  have hpreNil : valuesOf sCL pre = [] := by
+    unfold valuesOf
+    have : pre.filter (fun f => f.1 == sCL) = [] := by
+      rw [List.filter_eq_nil_iff]
+      intro f hf; rw [pseudo_not_cl f (hpre f hf)]; simp
+    rw [this]; rfl
+  have hlow : ∀ f ∈ fs, nameIs sCL f = (f.1 == sCL) := by
+    intro f hf
+    have hfb : f ∈ b := by rw [hb]; exact List.mem_append_right _ hf
+    have hok := (List.all_eq_true.mp hall) f hfb
+    simp only [fieldOk, Bool.and_eq_true, h2NameOk] at hok
+    have hname := hok.1.1.1.1.1
+    have : lower f.1 = f.1 := by
+      unfold lower asciiLower
+      conv => rhs; rw [← List.map_id f.1]
+      apply List.map_congr_left
+      intro c hc
+      have := (List.all_eq_true.mp hname) c hc
+      simp only [Bool.and_eq_true, Bool.not_eq_true', decide_eq_true_eq] at this
+      unfold asciiLowerB
+      have h1 : ¬(65 ≤ c.toNat ∧ c.toNat ≤ 90) := by
+        intro h; have := this.1.1; simp [h.1, h.2] at this
+      simp [h1]
+    unfold nameIs; rw [this]
+  have hvals : valuesOf sCL b = (fs.filter (nameIs sCL)).map (·.2) := by
+    have e1 : valuesOf sCL b = valuesOf sCL pre ++ valuesOf sCL fs := by
+      rw [hb]; simp [valuesOf]
+    rw [e1, hpreNil, List.nil_append]
+    unfold valuesOf
+    rw [List.filter_congr (fun f hf => (hlow f hf).symm)]
+  intro g hg
+  rw [hg] at hvals
+  simp only [List.map_cons, List.map_nil] at hvals
+  have hck' := hck
+  simp only [h2ClOk, hvals] at hck'
+  cases hd : Ref.parseDec g.2 with
+  | none => simp [hd] at hck'
+  | some n =>
+    simp [hd] at hck'
+    rcases hck'.2 with h0 | h1
+    · have hbn : body = [] := by cases body <;> simp_all
+      have := hguard hbn g.2 (by rw [hvals]; simp)
+      rw [hd] at this
+      rw [hbn]; exact this
+    · rw [h1]
+
+/-- The hypothesis `ClLaw` of `h2_to_h1_single_message` follows from the check hyper-h2 really makes (`h2ClOk`, the
+    transcription of `_track_content_length` the differential run ties to the library on every case) — except for
+    the one input class where hyper-h2 makes no check at all: no DATA frame (END_STREAM on the HEADERS frame) with a
+    non-zero content-length, finding F-C06c, excluded by `hguard`. -/
+theorem cl_law_from_h2_check (authOk : Bool) (b : Block) (body : Bytes) (r : Req)
+    (hv : h2ValidReq b = true) (hp : parseH2Request authOk b = some r)
+    (hck : h2ClOk false b body.length = true)
+    (hguard : body = [] → ∀ v ∈ valuesOf sCL b, Ref.parseDec v = some 0) : ClLaw r body := by
+  obtain ⟨ps, hs⟩ := parse_fields authOk b r hp
+  simp only [h2ValidReq, Bool.and_eq_true] at hv
+  exact cl_law_core b ps r.fields body hv.1.1.1.1 hs hck hguard
+
+/-- … and `RespClLaw` of `h2_to_h1_response_single_message` likewise (the excluded class is finding F-C06b) -/
+theorem resp_cl_law_from_h2_check (b : Block) (body : Bytes) (st : Nat) (fs : List Field)
+    (hv : h2ValidResp b = true) (hp : parseH2Response b = some (st, fs))
+    (hck : h2ClOk false b body.length = true)
+    (hguard : body = [] → ∀ v ∈ valuesOf sCL b, Ref.parseDec v = some 0) :
+    ∀ g, fs.filter (nameIs sCL) = [g] → Ref.parseDec g.2 = some body.length := by
+  have hs : ∃ ps, splitPseudo b [] = some (ps, fs) := by
+    unfold parseH2Response at hp
+    cases hsp : splitPseudo b [] with
+    | none => simp [hsp] at hp
+    | some pf =>
+      obtain ⟨ps, fs'⟩ := pf
+      simp only [hsp] at hp
+      split at hp
+      · split at hp
+        · simp at hp; exact ⟨ps, by rw [hp.2]⟩
+        · simp at hp
+      · simp at hp
+  obtain ⟨ps, hs⟩ := hs
+  simp only [h2ValidResp, Bool.and_eq_true] at hv
+  exact cl_law_core b ps fs body hv.1.1 hs hck hguard
+
+/-- `h2_to_h1_single_message` with the content-length law replaced by hyper-h2's own (transcribed, tied) check -/
+theorem h2_to_h1_single_message_checked (authOk : Bool) (b : Block) (body : Bytes) (r : Req)
+    (hv : h2ValidReq b = true) (hp : parseH2Request authOk b = some r)
+    (hval : validateRequest r false = true) (hck : h2ClOk false b body.length = true)
+    (hguard : body = [] → ∀ v ∈ valuesOf sCL b, Ref.parseDec v = some 0) :
+    h2ToH1 authOk b body = some (assembleRequestHead r.method r.path sHttp11 (toH1Fields r body) ++ body) ∧
+    Ref.parse (assembleRequestHead r.method r.path sHttp11 (toH1Fields r body) ++ body)
+      = some [⟨r.method, r.path, sHttp11, (toH1Fields r body).map readBack, body⟩] :=
+  h2_to_h1_single_message authOk b body r hv hp hval (cl_law_from_h2_check authOk b body r hv hp hck hguard)
+
 /-- Trailers (request or response) forwarded HTTP/2 → HTTP/2, the only pair of versions that can carry them in
     mitmproxy: `send_trailers([*event.trailers.fields])` — hyper-h2's outbound normalization leaves a block that passed
     the inbound validator exactly as it is (names, values, order), and the next hop's validator accepts it again. -/
@@ -1011,6 +1167,23 @@ theorem h2_to_h1_response_single_message (method : Bytes) (b : Block) (body : By
   obtain ⟨fr, hfr, hb⟩ := key
   rw [hbytes]
   exact ref_parse_resp_assembled line st _ method fs _ fr _ hline hlne sp.2.1 hfinal hconn hclean hfr hb
+
+/-- `h2_to_h1_response_single_message` with the content-length law replaced by hyper-h2's own (transcribed, tied)
+    check; the excluded input class is finding F-C06b -/
+theorem h2_to_h1_response_single_message_checked (method : Bytes) (b : Block) (body : Bytes) (st : Nat) (fs : List Field)
+    (hv : h2ValidResp b = true) (hp : parseH2Response b = some (st, fs))
+    (hval : validateHeaders fs false false (decide (100 ≤ st ∧ st ≤ 199) || st = 204) = true)
+    (hfinal : 200 ≤ st) (hconn : (asciiUpper method == sConnect) = false)
+    (hck : h2ClOk false b body.length = true)
+    (hguard : body = [] → ∀ v ∈ valuesOf sCL b, Ref.parseDec v = some 0) :
+    h2RespToH1 method b body
+      = some (assembleResponseHead sHttp11 st (reason st) fs ++ (if bodiless method st then [] else body)) ∧
+    Ref.parseResp (closeAfter method st fs) [method]
+        (assembleResponseHead sHttp11 st (reason st) fs ++ (if bodiless method st then [] else body))
+      = some [⟨sHttp11, st, joinWith [32] (splitOn 32 (reason st)), fs.map readBack,
+               if bodiless method st then [] else body⟩] :=
+  h2_to_h1_response_single_message method b body st fs hv hp hval hfinal hconn
+    (resp_cl_law_from_h2_check b body st fs hv hp hck hguard)
 
 /-- e.g. a 200 without content-length is delimited by the close; a 204 carries no body whatever the server sent -/
 example : (h2RespToH1 [71, 69, 84] [(pStatus, [50, 48, 48]), ([120], [49])] [97, 98]).map (Ref.parseResp true [[71, 69, 84]]) =
